@@ -32,12 +32,14 @@ MCCancel ==
     /\ cancelled' = TRUE
     /\ UNCHANGED <<sent, steps>>
 
-MCNext == MCStep \/ MCReceive \/ MCCancel
+MCFire == EnvFire /\ UNCHANGED <<sent, steps, cancelled>>
+
+MCNext == MCStep \/ MCReceive \/ MCCancel \/ MCFire
 
 MCSpec == MCInit /\ [][MCNext]_mvars
 
 \* eventless loops and raise loops make the unbounded model infinite
-Bound == steps <= MaxSteps /\ Len(m.iq) <= 6 /\ Len(m.eq) <= MaxWord + 2
+Bound == steps <= MaxSteps /\ Len(m.iq) <= 6 /\ Len(m.eq) <= MaxWord + 2 /\ Len(m.dq) <= 3
 
 \* observation variables do not distinguish states
 View == <<ci, life, flags, [m EXCEPT !.atoms = <<>>], sent, cancelled,
